@@ -1,7 +1,51 @@
-"""Generators as reactive loops (DESIGN 3.5)."""
-from .sorts import Unsupported
+"""Generator functions as reactive loops (DESIGN 3.5).
+
+Verifying a generator function: its body is executed symbolically; at every `v = yield e`
+  1. the contract's at_yield clauses are proof obligations (what has been handed out, in which state);
+  2. the driver is arbitrary code: everything it can reach is havocked (interface `Driver`), the generator's own locals and the
+     objects the contract names as private stay;
+  3. the path forks: resumed by send(x) for an arbitrary x (recorded in the ghost local `_sent`), or by throw(e) for an arbitrary
+     exception object of any class, GeneratorExit included (recorded in `_thrown`); a generator that is never resumed has no further obligations.
+`return e` of the generator is the normal exit (StopIteration(e) at the consumer) and is checked against `ensures`."""
+import z3
+
+from .sorts import Val, SV, Unsupported, clsof, issub, I
+from . import spec as SP
+from .engine import Res
 
 
 class GenMixin:
     def exec_generator(self, fn, st, c):
-        raise Unsupported("generator functions are not yet supported")
+        fid = st.fid
+        st.frames[fid]["_sent"] = SV("none")
+        st.frames[fid]["_thrown"] = SV("none")
+        st.frames[fid]["_nyield"] = SV("int", z3.IntVal(0))
+        st.frames[fid]["_ctx_at_resume"] = SV("val", self.ctx_cell(st))
+
+        def handler(s, val):
+            s.fid = fid
+            for label, src, props in c.at_yield:
+                from .loopx import split_conj
+                for sub, ssrc in split_conj(src):
+                    g = self.spec_eval(s, ssrc, fid, s.heap0, s.entry_frame, {"yielded": val})
+                    self.emit(s, "yield:" + label + sub, g, "post", props)
+            saved_handler = s.yield_handler
+            s.yield_handler = None
+            drv = SV("obj", self.alloc(s, "function"), h="Driver")
+            out = []
+            for r in self.call_opaque(s, drv, "Driver", "", [], {}, None, None):
+                r.st.yield_handler = saved_handler
+                r.st.frames[fid]["_ctx_at_resume"] = SV("val", self.ctx_cell(r.st))
+                n = r.st.frames[fid]["_nyield"]
+                r.st.frames[fid]["_nyield"] = SV("int", n.t + 1)
+                if r.exc is not None:
+                    r.st.frames[fid]["_thrown"] = r.exc
+                    r.st.trail.append("resume:throw")
+                    out.append(r)
+                else:
+                    r.st.frames[fid]["_sent"] = r.val
+                    r.st.trail.append("resume:send")
+                    out.append(Res(r.st, r.val))
+            return out
+        st.yield_handler = handler
+        return self.exec_block(fn.body, st)
